@@ -857,7 +857,8 @@ def run(ck):
                 groups.setdefault(m, []).append((c, r))
         for ib, io in burst_of.items():
             ck.bump("burst_runs")
-            if canon_result(results[ib]) != canon_result(results[io]):
+            if canon_result(results[ib]) != canon_result(results[io]) and not ws_recv.codec_rejected(cases[ib], results[ib]) \
+                    and not ws_recv.codec_rejected(cases[io], results[io]):
                 ck.violation(f"aio/burst-dependent/failByDrop={cases[ib]['fbd']}",
                              f"[{fw}] reads {[len(x) // 2 for x in cases[ib]['chunks']]} delivered back to back before the event loop runs give "
                              f"{results[ib]['events'][-3:]} state {results[ib]['state']}, read by read {results[io]['events'][-3:]} state {results[io]['state']}",
